@@ -126,9 +126,14 @@ def get_mod_nodes_remove_incompatibilities(
             removed_nodes |= deriving_derived_nodes
 
         # If any of the deriving nodes are in the confirmed nodes, we have an infeasible graph
-        if len(deriving_nodes & confirmed_nodes) > 0:
+        confirmed_deriving_nodes = deriving_nodes & confirmed_nodes
+        if len(confirmed_deriving_nodes) > 0:
             removed_nodes -= confirmed_nodes
-            raise IncompatibilityError('Incompatibility constraint derives from confirmed nodes', {edge}, removed_nodes)
+
+            # Also report the incompatibility with the confirmed deriving nodes (the target node itself is not confirmed
+            # and is removed again when more choices are applied), so that the infeasibility stays marked
+            edges = {edge} | {(edge[0], node)+tuple(edge[2:]) for node in confirmed_deriving_nodes}
+            raise IncompatibilityError('Incompatibility constraint derives from confirmed nodes', edges, removed_nodes)
 
     return removed_nodes
 
